@@ -96,6 +96,7 @@ func genC18(seed int64, tier string, emit func(run.Case)) {
 		}
 	}
 	layGenCases(seed, tier, 18, 300, 55, 40, c18Opts, emit)
+	layNearOnlyCases(seed, tier, 3, emit)
 }
 
 func c18Snapshot(g *d2graph.Graph) c18Snap {
